@@ -51,12 +51,12 @@ def convExprImpl (e : Env) (r : Rec) (ctx : Ctx) (n : ANode) : M Doc :=
 
 /-- `convert_expr` (entry point). -/
 def convExpr (e : Env) (r : Rec) (ctx : Ctx) (n : ANode) : M Doc := do
-  tick
+  enter .expr n.attrs.id
   if n.attrs.disabled then pure (e.verb n.intoText) else convExprImpl e r ctx n
 
 /-- `convert_pattern` (entry point). `rSelf` is the same level (pattern → expr forwards without descending). -/
 def convPattern (e : Env) (r : Rec) (exprSame : Ctx → ANode → M Doc) (parenSame : Ctx → ANode → M Doc) (ctx : Ctx) (n : ANode) : M Doc := do
-  tick
+  enter .pattern n.attrs.id
   if n.attrs.disabled then pure (e.verb n.intoText) else
   match n.kind with
   | .underscore => e.synNode n "_"
@@ -81,11 +81,16 @@ def knot (e : Env) : Nat → Rec
       math := convMath e r
       paren := parenF }
 
+/-- Attributes, then node numbers. -/
+def prepare (root : Node) : ANode := (number (annotate false root) 0).1
+
 /-- Stages 2+3 of the pipeline: attributes, then `convert_markup` of the root. Returns the
 document and the number of entries into the four conversion entry points. -/
 def printDoc (e : Env) (root : Node) : Except Reject (Doc × Nat) :=
-  let t := annotate false root
-  ((knot e (2 * t.depth + 2)).markup {} t .document).run 0
+  let t := prepare root
+  match ((knot e (2 * t.depth + 2)).markup {} t .document).run { limit := t.size } with
+  | .ok (d, s) => .ok (d, s.calls)
+  | .error r => .error r
 
 /-- `Typstyle::format_source` after the error check. -/
 def format (e : Env) (root : Node) : Except Reject String :=
